@@ -355,3 +355,78 @@ func VerifC10_styles() {
 	vfAssert(vfAnd(errAuto == nil, viaAuto == want), "auto-agrees")
 	vfObserveStr("out", viaAuto)
 }
+
+type vfLiveText struct{ s string }
+
+func (x *vfLiveText) String() string { return x.s }
+
+// a user callback that resolves a pending item before the cells are laid out
+type vfResolveCB struct{ item *vfLiveText }
+
+func (cb vfResolveCB) UpdateProperties(po tabular.PropertyOwner) error {
+	if c, ok := po.(*tabular.Cell); ok {
+		if c.Item() == interface{}(cb.item) {
+			cb.item.s = "forty-two"
+			c.Update()
+		}
+	}
+	return nil
+}
+
+// VerifC10_live: (a) an item that changed after it was added, without anyone updating the cell, shows
+// its old text in every format whatever created or wraps the table; (b) a pre-cell user callback that
+// resolves an item and updates the cell is honoured alike by package functions, wrapper methods and auto.
+func VerifC10_live() {
+	format := vfChoice("format", 5)
+	mk := func(create int) tabular.Table {
+		switch create {
+		case 1:
+			return texttable.New()
+		case 2:
+			return markdown.New()
+		case 3:
+			return csv.New()
+		}
+		return tabular.New()
+	}
+	if vfChoice("scenario", 2) == 0 {
+		ref := tabular.New()
+		ref.AddHeaders("item", "n")
+		ref.AddRowItems("7 in stock", 1)
+		want, werr := vfRenderAs(ref, format)
+		t := mk(vfChoice("create", 4))
+		live := &vfLiveText{"7 in stock"}
+		var w tabular.Table = t
+		if vfChoice("wrap-before", 2) == 1 {
+			w = vfWrapKind(w, []int{3, 0, 2}[vfChoice("wrap", 3)])
+		}
+		w.AddHeaders("item", "n")
+		w.AddRowItems(live, 1)
+		live.s = "12 in stock"
+		if vfChoice("text-render-first", 2) == 1 {
+			texttable.Render(w)
+		}
+		out, err := vfRenderAs(w, format)
+		vfAssert(vfAnd(werr == nil, err == nil), "render-ok")
+		vfAssert(out == want, "same-bytes-whatever-created-or-wraps-it")
+		vfObserveStr("out", out)
+		return
+	}
+	build := func() tabular.Table {
+		t := mk(vfChoice("create", 4))
+		pending := &vfLiveText{"?"}
+		t.AddHeaders("k", "v")
+		t.AddRowItems("answer", pending)
+		vfAssert(t.RegisterPropertyCallback(t, tabular.CB_AT_RENDER_PRECELL, tabular.CB_ON_CELL, vfResolveCB{pending}) == nil, "register-ok")
+		return t
+	}
+	// each way of rendering on a table of its own, built identically
+	viaPkg, e1 := vfRenderAs(build(), format)
+	viaWrap, e2 := vfKeep(build(), format).Render()
+	style := []string{"csv", "json", "markdown", "texttable", "html"}[format]
+	viaAuto, e3 := Render(build(), style)
+	vfAssert(vfAnd(e1 == nil, vfAnd(e2 == nil, e3 == nil)), "render-ok")
+	vfAssert(viaWrap == viaPkg, "wrapper-method-agrees")
+	vfAssert(viaAuto == viaPkg, "auto-agrees")
+	vfObserveStr("out", viaPkg)
+}
